@@ -146,6 +146,28 @@ namespace vt
         friend bool operator>=(const MA2& a, const MA2& b) { return a.id >= b.id; }
     };
     static_assert(std::is_trivially_copy_assignable<MA2>::value && std::is_trivially_move_constructible<MA2>::value && !std::is_trivially_move_assignable<MA2>::value, "MA2's shape");
+    // a companion that is trivial in every respect (so that the variant's own special members depend on MA2 alone)
+    struct TV
+    {
+        uint64_t id;
+        explicit TV(uint64_t v) : id(v) {}
+        friend bool operator==(const TV& a, const TV& b) { return a.id == b.id; }
+        friend bool operator!=(const TV& a, const TV& b) { return a.id != b.id; }
+        friend bool operator<(const TV& a, const TV& b) { return a.id < b.id; }
+        friend bool operator>(const TV& a, const TV& b) { return a.id > b.id; }
+        friend bool operator<=(const TV& a, const TV& b) { return a.id <= b.id; }
+        friend bool operator>=(const TV& a, const TV& b) { return a.id >= b.id; }
+    };
+    static_assert(std::is_trivially_copyable<TV>::value && std::is_trivially_destructible<TV>::value, "TV is trivial");
+    // an alternative whose unary & hands out something else than its address
+    struct AMP
+    {
+        uint64_t id;
+        explicit AMP(uint64_t v) : id(v) {}
+        static AMP& decoy() { static AMP d(4242); return d; }
+        AMP* operator&() { return std::addressof(decoy()); }
+        const AMP* operator&() const { return std::addressof(decoy()); }
+    };
     static_assert(std::is_trivially_destructible<TT>::value, "TT must be trivially destructible");
     static_assert(std::is_trivially_copy_assignable<DA>::value && !std::is_trivially_copy_constructible<DA>::value, "DA: trivial assignment, non-trivial copy");
 }
@@ -775,6 +797,17 @@ namespace
                     if (reinterpret_cast<const char*>(p) < lo || reinterpret_cast<const char*>(p) >= lo + sizeof(XV) || static_cast<const void*>(p) != static_cast<const void*>(q))
                         viol("model", "get_if", "get_if does not point at the alternative stored in the variant (a type that overloads operator&)");
                     if (&p->get() != &xint) viol("model", "get_if", "the alternative reached through get_if designates another object");
+                    {
+                        using AV = xtl::variant<int, AMP>;
+                        AV av(mpark::in_place_index_t<1>{}, static_cast<uint64_t>(st.b % 1000));
+                        const AV& cav = av;
+                        AMP* g1 = xtl::get_if<1>(&av);
+                        const AMP* g2 = xtl::get_if<AMP>(&cav);
+                        const char* alo = reinterpret_cast<const char*>(std::addressof(av));
+                        auto inside = [&](const void* q2) { const char* c = static_cast<const char*>(q2); return c >= alo && c < alo + sizeof(AV); };
+                        if (!g1 || !g2 || !inside(g1) || !inside(g2) || g1->id != st.b % 1000 || g1 != std::addressof(xtl::get<1>(av)))
+                            viol("model", "get_if", "get_if on an alternative that overloads unary & does not return the address of the alternative in the variant");
+                    }
                 }
                 else if (v == 1)
                 {
@@ -970,12 +1003,12 @@ namespace
     };
     struct SetMoveAssign
     {
-        using X = MA2; using Y = DB;
+        using X = MA2; using Y = TV;
         static constexpr bool tracked = false;
         static X mkx(uint64_t id) { return X(id % 6); }
         static uint64_t idx(const X& x) { return x.id; }
         static const char* xname() { return "MA2"; }
-        static const char* yname() { return "DB"; }
+        static const char* yname() { return "TV"; }
         static bool source_marked(const X& x) { return x.moved_from; }
     };
     struct SetSwap
@@ -1411,6 +1444,6 @@ namespace
     RegisterCfg reg_c("int_double_TT_trivially_destructible", gen, exec_small<SmallWorld<SetTrivial>>, 1, false);
     RegisterCfg reg_d("int_NA_DB_converting_assignment", gen_conv, exec_small<SmallWorld<SetConverting>>, 1, false);
     RegisterCfg reg_e("int_GR_DB_alternative_constructible_from_anything", gen, exec_small<SmallWorld<SetGreedy>>, 1, false);
-    RegisterCfg reg_g("int_MA2_DB_alternative_with_own_move_assignment", gen, exec_small<SmallWorld<SetMoveAssign>>, 1, false);
+    RegisterCfg reg_g("int_MA2_TV_alternative_with_own_move_assignment", gen, exec_small<SmallWorld<SetMoveAssign>>, 1, false);
     RegisterCfg reg_f("int_SW_DBN_alternative_with_throwing_swap", gen, exec_small<SmallWorld<SetSwap>>, 1, false);
 }
